@@ -90,6 +90,27 @@ def impl_seed_child_keys(a):
     return obs(curve, o)
 
 
+def direct_path_routes(a):
+    curve, seed, path = a
+    cls = CLS[curve]
+    want = impl_seed_child_keys(a)
+    txt = "/".join(("%d'" % (i - HARD)) if i >= HARD else str(i) for i in path)
+    routes = {
+        "FromSeedAndPath('m/..')": lambda: cls.FromSeedAndPath(seed, "m/" + txt if txt else "m"),
+        "FromSeed().DerivePath('m/..')": lambda: cls.FromSeed(seed).DerivePath("m/" + txt if txt else "m"),
+        "FromSeed().DerivePath('..')": lambda: cls.FromSeed(seed).DerivePath(txt),
+        "FromSeedAndPath(Bip32Path)": lambda: cls.FromSeedAndPath(seed, Bip32Path(path, True)),
+    }
+    for name, f in routes.items():
+        try:
+            got = obs(curve, f())
+        except Exception as e:  # noqa
+            return "%s raises %s on a %d-level path the ChildKey chain derives" % (name, type(e).__name__, len(path))
+        if got != want:
+            return "%s differs from the ChildKey chain on a %d-level path" % (name, len(path))
+    return None
+
+
 def impl_priv_path(a):
     curve, mock, kb, depth, index, chain, pfp, pub_first, pub_after, is_abs, path = a
     with forced_hmac(mock):
@@ -214,6 +235,9 @@ FUNCS = {
     # the no-retry model ([ckd_priv_ecdsa_current]) against the code as it stands: ties the refuted variant
     # to the implementation (private side only; the public side of the present code is back-end dependent)
     "seed_path_current": Func(model=model_seed_path(1), impl=impl_seed_path),
+    # every textual route to a path (FromSeedAndPath(str), DerivePath(str), absolute and relative spelling) gives the
+    # key of the ChildKey chain -- up to the deepest path BIP-32 allows (255 levels)
+    "path_routes": Func(impl=lambda a: impl_seed_child_keys(a), direct=lambda a: direct_path_routes(a)),
     # the no-retry model on the published retry vector reproduces the keys recorded for finding F1 (compared
     # with the record, not with the implementation, so that it stays true once the code is repaired)
     "current_model_f1": Func(model=lambda m, a: _priv_pub(m.call("slip10_seed_path", 1, 1, FUEL, [], F1_SEED, 1, F1_PATH)),
@@ -416,6 +440,11 @@ def generate(ctx):
             ctx.run("priv_path", [curve, [], v.to_bytes(32, "big"), 0, 0, rb(rng, 32), md, 0, 0, 1, []], "raw-key-range")
         for ln in (0, 31, 33):
             ctx.run("priv_path", [curve, [], rb(rng, ln), 0, 0, rb(rng, 32), md, 0, 0, 1, []], "raw-key-len")
+
+    # -- directed: textual routes, including the deepest legal paths (254 and 255 levels)
+    for curve, depth in ((0, 255), (2, 255), (0, 254), (3, 3), (1, 5), (0, 0), (2, 1)):
+        pth = [(HARD if curve >= 2 else 0) + rng.choice([0, 1, 2, 44]) for _ in range(depth)]
+        ctx.run("path_routes", [curve, rand_seed(rng), pth], "routes-depth-%d" % depth)
 
     # -- directed: parents near 0 and near n (the sum wraps the order), both ECDSA curves
     for curve in (0, 1):
